@@ -558,6 +558,46 @@ Proof. vm_compute. reflexivity. Qed.
                         'its file; after the sweep the next request got id %s and data %r' % (isid, tmo, sid2, reads2),
                         case={'k': 'sweep-interleaved', 'timeout_min': tmo, 'late_s': late}, observed=obs))
                     break
+        return out + self.subsecond_expiry()
+
+    def subsecond_expiry(self):
+        """the clock of the generated histories moves in whole seconds; here it stands at sub-second positions next to
+        the expiry instant (saved at s, timeout T: returned at any t <= s + T, never after), with a whole-minute and a
+        half-second timeout.  Oracle only."""
+        env = self.env
+        out = []
+        for backend in ('ram', 'file'):
+            for tmo_min, saved_at, probes in ((1, 10.9, [(70.5, True), (70.95, False)]),
+                                              (0.5 / 60, 10.9, [(11.0, True), (11.35, True), (11.45, False)]),
+                                              (1, 10.0, [(69.95, True), (70.0, True), (70.05, False)])):
+                for at, alive in probes:
+                    env.reset([21, 22, 23, 24, 25, 26])
+                    app = env.app(backend, tmo_min)
+                    env.t = saved_at
+                    r = wsgi.call(app, 'GET', '/run?a=' + urllib.parse.quote(json.dumps([['w', 0, 7]])), [])
+                    ck = http.cookies.SimpleCookie()
+                    for v in wsgi.headers_all(r, 'Set-Cookie'):
+                        ck.load(v)
+                    sid = ck['session_id'].value
+                    env.t = at
+                    r2 = wsgi.call(app, 'GET', '/run?a=' + urllib.parse.quote(json.dumps([['r']])),
+                                   [('Cookie', 'session_id=' + sid)])
+                    try:
+                        reads = json.loads(r2.body)
+                    except ValueError:
+                        reads = None
+                    self.count('sub-second clock next to the expiry instant')
+                    want = [[[0, 7]]] if alive else [[]]
+                    if r.status != 200 or r2.status != 200 or reads != want:
+                        out.append(core.Violation(
+                            'expiry-instant',
+                            '%s backend, timeout %s s: data saved at t=%s must %s at t=%s; the request read %r (status %s)'
+                            % (backend, round(tmo_min * 60, 3), saved_at,
+                               'still be returned' if alive else 'not be returned any more', at, reads, r2.status),
+                            case={'k': 'subsecond-expiry', 'backend': backend, 'timeout_s': tmo_min * 60,
+                                  'saved_at': saved_at, 'at': at}, observed={'reads': reads, 'status': r2.status}))
+                        return out
+        env.t = 0
         return out
 
     def cases(self):
